@@ -1,5 +1,5 @@
 (* C15 — property theorems.  Nothing but statements, `exact`, Print Assumptions. *)
-From G11 Require Import Timeouts TimeoutsCheck TimeoutsProofs Obligations.
+From G11 Require Import Timeouts TimeoutsCheck TimeoutsProofs TimeoutsGeneral Obligations.
 Open Scope Z_scope.
 
 (* A connection that makes no progress in a phase is closed exactly when the limit in force has
@@ -42,6 +42,58 @@ Theorem T15_upstream_never_cut : forall c pre evs,
   closed (run c s evs) = None.
 Proof. exact (fun c pre evs Hr => upstream_never_cut c Hr pre evs). Qed.
 Print Assumptions T15_upstream_never_cut.
+
+(* ---- every configuration, in particular ReadTimeout > 0 (whole-request deadline) ---- *)
+
+(* "... nor at all merely because the origin is slow": in ANY state (reachable or not) and for ANY
+   configuration, a connection whose request has been received in full (or that is a tunnel) is never
+   closed while time passes: the whole-request deadline t0 + ReadTimeout stays armed on the socket, but
+   nothing reads from the client, so it closes nothing however long the origin takes. *)
+Theorem T15_slow_origin_never_cut_any_config : forall c s evs,
+  closed s = None -> (ph s = PUp \/ ph s = PTunnel) -> forallb (stall (ph s)) evs = true ->
+  closed (run c s evs) = None.
+Proof. exact slow_origin_never_cut. Qed.
+Print Assumptions T15_slow_origin_never_cut_any_config.
+
+(* The whole-request deadline D = (first byte of the request) + ReadTimeout, after any history, for a
+   request whose body is outstanding: nothing happens to the connection before D; when D is reached
+   the exchange is aborted (the client is sent an error response) and the connection is NOT closed:
+   the handler is back in the idle wait, entered at D, and a silent client is closed idle-timeout
+   later.  With ReadTimeout <= 0 an outstanding body is waited for indefinitely. *)
+Theorem T15_whole_request_deadline : forall c pre evs d,
+  let s := run c (conn_start c) pre in
+  closed s = None -> ph s = PBody -> forallb (stall PBody) evs = true ->
+  (c_read c <= 0 -> closed (run c s evs) = None) /\
+  (0 < c_read c -> let s1 := run c s evs in let D := t0 s + c_read c in
+     now s1 < D ->
+     closed s1 = None /\ ph s1 = PBody /\
+     (D <= now s1 + d ->
+        let s2 := step c s1 (Tick d) in
+        ph s2 = PIdle /\ entered s2 = D /\
+        match closed s2 with
+        | None => idle_eff c <= 0 \/ now s1 + d < D + idle_eff c
+        | Some t => 0 < idle_eff c /\ t = D + idle_eff c
+        end)).
+Proof. exact body_deadline. Qed.
+Print Assumptions T15_whole_request_deadline.
+
+(* Head and idle limits for every configuration: first byte + read-header-timeout (ReadTimeout when
+   that is 0), phase entry + idle-timeout (ReadTimeout when that is 0); no limit when both are 0. *)
+Theorem T15_head_and_idle_deadline_any_config : forall c pre evs,
+  let s := run c (conn_start c) pre in
+  closed s = None ->
+  (ph s = PHead -> forallb (stall PHead) evs = true ->
+     (rhdr_eff c <= 0 -> closed (run c s evs) = None) /\
+     (0 < rhdr_eff c -> now s < t0 s + rhdr_eff c ->
+        (closed (run c s evs) = None /\ now (run c s evs) < t0 s + rhdr_eff c) \/
+        (closed (run c s evs) = Some (t0 s + rhdr_eff c) /\ t0 s + rhdr_eff c <= now (run c s evs)))) /\
+  (ph s = PIdle -> forallb (stall PIdle) evs = true ->
+     (idle_eff c <= 0 -> closed (run c s evs) = None) /\
+     (0 < idle_eff c -> now s < entered s + idle_eff c ->
+        (closed (run c s evs) = None /\ now (run c s evs) < entered s + idle_eff c) \/
+        (closed (run c s evs) = Some (entered s + idle_eff c) /\ entered s + idle_eff c <= now (run c s evs)))).
+Proof. exact (fun c pre evs Hc => conj (fun Hp Hs => head_deadline c pre evs Hc Hp Hs) (fun Hp Hs => idle_deadline c pre evs Hc Hp Hs)). Qed.
+Print Assumptions T15_head_and_idle_deadline_any_config.
 
 (* The limits of the model are the configured ones the property names, phase by phase;
    in particular every phase in which the proxy waits for the client has one. *)
